@@ -112,10 +112,9 @@ def run(chk):
                 "settings x delegated role listed or not; non-trivial = combination is not the all-equal, "
                 "all-original one; distinct by scenario")
     chk.assumptions = ["symbolic signatures", "SHA-256 collision-free (digest identities)"]
-    if THEOREMS:
-        chk.proof, fails = C.proof_gate("C05", THEOREMS)
-        for f in fails:
-            chk.broken(f, {"theorem_gate": f})
+    chk.proof, fails = C.proof_gate("C05")
+    for f in fails:
+        chk.broken(f, {"theorem_gate": f})
     C.ensure_harness()
     specs = gen(chk)
     scens = [build(chk.rng, *p) for p in specs]
